@@ -35,6 +35,13 @@ def run(ctx):
     # precondition from the chain (C13): the library's check slots never leave a non-Blocked, non-Pass verdict in the context
     from . import rules_C13
     rules_C13.slot_stores(ctx, f, cfg)
+    # precondition from the node storage (C14): every entry of a resource is accounted on the node that readers of that resource see -
+    # a node handed out without being retained in the map records its entries where nobody looks ("never neither")
+    from . import rules_C14
+    from .lockgraph import LockGraph
+    g = LockGraph(f)
+    g.build()
+    rules_C14.one_node(ctx, f, g, cfg)
     if ctx.tier == "thorough":
         macro_exit(ctx)
 
